@@ -52,9 +52,13 @@ pub fn duplicate_checks(ctx: &Ctx, tier: Tier) -> (u64, u64) {
                 let b = canon(&dup);
                 if a.files != b.files {
                     // tell apart models whose own content is not permitted in their version (leniently loaded)
+                    // (judged per file: the text of each file, loaded on its own, complains about more than a missing required attribute)
                     let invalid = w.m.files().any(|f| {
-                        let v = f.version();
-                        crate::common::specvalid::validate_tree(&crate::common::tree::snapshot_model(&w.m), v).iter().any(|x| x.kind != "required-attribute-missing")
+                        let Ok(text) = f.serialize() else { return false };
+                        match super::c01::load_classified(text.as_bytes(), false) {
+                            Ok(Ok(l)) => l.warning_classes.iter().any(|c| c != "ParserError::RequiredAttributeMissing"),
+                            _ => true,
+                        }
                     });
                     let tag = if invalid { "|original-has-content-not-permitted-in-its-version" } else { "" };
                     ctx.violation(format!("duplicate|file-texts-differ{tag}"), json!({"kind": "history", "history": history_json(seed_name, hist, None), "original": a.files, "duplicate": b.files}));
